@@ -7,7 +7,9 @@ sampler constructed from the same data and freshly started on the current occupa
 (<= 8 mobile sites; <= 10 on the thorough tier) are explored exhaustively: every occupation, every
 single-site and every pair update and its inverse, plus a Gray-code walk through all occupations
 without restart; larger supercells get random histories of 200 events.  With / without vacancy,
-with / without jump network (and transition-state clusters), with spectators.
+with / without jump network (and transition-state clusters), with spectators.  A fixed share of the
+workload uses thin supercells (period <= cluster range: a cluster meets its own periodic image, the
+image of the fixed vacancy lies inside the vacancy clusters), explored in the same two ways.
 """
 import itertools
 import numpy as np
@@ -20,21 +22,40 @@ RULE = ('supercell drawn from a fixed menu (chains, ladders, planes, triangular/
         'rocksalt/L12 incl. non-diagonal supercell matrices and cells in which clusters wrap around) x random cluster/KRA/TS '
         'values x variant (vacancy seat or none, jump network or none, TS clusters or none); exhaustive mode visits every '
         'occupation with every 1- and 2-site update, history mode draws 200 events (start / update of 1..4+1..4 sites incl. '
-        'no-op sites / swap / trial only / performed transition); non-trivial = at least one interaction changes state; '
+        'no-op sites / swap / trial only / performed transition); a fixed share of the cases (28 of 136 quick; every thin '
+        'entry x every variant x 3 on the thorough tier) uses the THIN menu of vmon.ref.sampler_ref: supercells whose period is not '
+        'longer than the cluster range (fcc nn clusters in 1x2x3 / 1x1x4 / 2x2x1 / 1x3x3 / 1x4x5 and a non-diagonal thin cell, fcc 2x2x2 and '
+        '3x3x2 with pairs to the 4th neighbour, hcp 1x1x1 / 1x1x2 / 2x1x2, B2 (with spectators) and all-mobile B2 1x2x2 / 2x1x3 / 2x2x2 with '
+        'cut-off 2.01, sc, bcc, diamond, rocksalt, L12, chains, planes, triangular, honeycomb), so that a cluster contains a site and '
+        'its own periodic image (the same supercell site listed twice in one interaction) and, with a vacancy, the periodic image of '
+        'the fixed vacancy lies inside the range of the vacancy clusters; thin cells with <= 8 (10) sites are explored exhaustively, '
+        'larger ones by histories; non-trivial = at least one interaction changes state; '
         'distinct = (crystal, supercell, cutoff, order, variant, mode)')
 ASSUMPTIONS = ['energies compared with tolerance 1e-9 x sum of |interaction values|; integer state compared exactly',
                'the fresh sampler (R8) is a second MonteCarloSampler object built from the same inputs and started on a copy of '
                'the occupation; the brute-force energy (R9) maps cluster sites to indices through positions only',
                'update/deltaE_trial arguments never contain the same site twice nor in both lists (the docstring leaves that '
                'unspecified); sites already in the requested state may be listed (documented no-op)',
-               'exhaustive exploration bound: <= 8 mobile sites (quick), <= 10 (thorough)']
+               'exhaustive exploration bound: <= 8 mobile sites (quick), <= 10 (thorough)',
+               'self-wrapping (thin) supercells are in scope: the brute-force energy R9 counts one instance per (cluster, lattice '
+               'translation modulo the supercell), every cluster site mapped into the supercell by its position, the instance being on '
+               'iff all mapped sites are occupied (a site that occurs twice simply has to be occupied; the vacancy site is never '
+               'occupied, so a vacancy cluster that reaches the periodic image of its own vacancy never counts); on the unchanged '
+               'repository evalcluster, expandcluster_matrices, clusterevaluator and the samplers agree with this reading in every thin '
+               'cell of the menu. Barriers in thin cells are only compared between samplers (history vs fresh), never with a model',
+               'the thin-regime counters (thin:*) come from a geometry-only census (vmon.ref.sampler_ref.placement_stats), not from '
+               'the interaction lists of the sampler under test']
 REQUIRED_OBS = {'eval:C33:E=fresh': 2000, 'eval:C33:E=brute': 2000, 'eval:C33:trial=performed': 2000, 'eval:C33:trial=brute': 2000,
                 'eval:C33:sets=fresh': 2000, 'eval:C33:clustercount=fresh': 2000, 'eval:C33:transitions=fresh': 500,
                 'eval:C33:trial-is-pure': 200, 'eval:C33:occ-array': 2000,
                 'events:start': 200, 'events:update1': 500, 'events:update2': 500, 'events:updateN': 100, 'events:trial': 100,
                 'events:move': 30, 'events:noop-sites': 20, 'events:restart': 20,
                 'cells:exhaustive': 8, 'cells:history': 8, 'variant:vac+jumps': 3, 'variant:vac': 3, 'variant:jumps': 3,
-                'variant:plain': 3, 'cells:spectator': 2, 'occupations_exhausted': 1000}
+                'variant:plain': 3, 'cells:spectator': 2, 'occupations_exhausted': 1000,
+                # thin (self-wrapping) regime
+                'thin_supercells': 12, 'thin:exhaustive': 6, 'thin:history': 4, 'thin:vac': 4, 'thin:jumps': 4,
+                'self_wrapping_instances': 300, 'vacancy_image_in_range': 40, 'events:update-double-site': 2000,
+                'events:trial-double-site': 2000}
 CASE_TIMEOUT = 300
 
 QUICK_LARGE = [('fcc', 0), ('fcc', 1), ('fcc', 2), ('bcc', 0), ('bcc', 3), ('sc', 0), ('sc', 1), ('hcp', 1), ('diamond', 0), ('diamond', 1),
@@ -56,6 +77,17 @@ def cases(tier, seed):
         for i in range(8):
             out.append({'seed': seed, 'idx': 200 + i, 'hashseed': i % 4, 'mode': 'history', 'menu': 'small',
                         'cfg': list(small[(i * 5 + seed) % len(small)]), 'variant': VARIANTS[i % 4]})
+        # thin supercells: 18 exhaustive (<= 8 sites) + 10 histories (any size, the > 8-site entries always among them)
+        thin = sr.menu('thin')
+        tsmall = [c for c in thin if sr.menu_nsites('thin', *c) <= 8]
+        tbig = [c for c in thin if sr.menu_nsites('thin', *c) > 8]
+        for i in range(18):
+            out.append({'seed': seed, 'idx': 300 + i, 'hashseed': i % 4, 'mode': 'exhaustive', 'menu': 'thin',
+                        'cfg': list(tsmall[(i * 5 + seed * 7) % len(tsmall)]), 'variant': VARIANTS[(i + seed) % 4]})
+        for i in range(10):
+            cfg = tbig[(i + seed) % len(tbig)] if i < 4 else thin[(i * 11 + seed * 3) % len(thin)]
+            out.append({'seed': seed, 'idx': 400 + i, 'hashseed': i % 4, 'mode': 'history', 'menu': 'thin',
+                        'cfg': list(cfg), 'variant': VARIANTS[(i + 2 * (i // 4) + seed) % 4]})
     else:
         medium, large = sr.menu('medium'), sr.menu('large')
         n = 0
@@ -79,6 +111,14 @@ def cases(tier, seed):
                 out.append({'seed': seed, 'idx': n, 'hashseed': n % 7, 'mode': 'history', 'menu': 'small' if cfg in small else 'medium',
                             'cfg': list(cfg), 'variant': VARIANTS[(n + rep) % 4]})
                 n += 1
+        # thin supercells: every entry x every variant, exhaustive where <= 10 sites (and one history), histories otherwise
+        for rep in range(3):
+            for cfg in sr.menu('thin'):
+                for v in VARIANTS:
+                    exh = sr.menu_nsites('thin', *cfg) <= 10 and rep < 2
+                    out.append({'seed': seed, 'idx': n, 'hashseed': n % 7, 'mode': 'exhaustive' if exh else 'history', 'menu': 'thin',
+                                'cfg': list(cfg), 'variant': v})
+                    n += 1
     return out
 
 
@@ -102,8 +142,9 @@ class Snapshot:
 
 
 class Checker:
-    def __init__(self, mon, A, B, eref, desc, vac):
+    def __init__(self, mon, A, B, eref, desc, vac, double=()):
         self.mon, self.A, self.B, self.eref, self.desc, self.vac = mon, A, B, eref, desc, vac
+        self.double = set(double)  # sites that occur twice in one cluster placement (thin supercells)
         self.scale = sr.energy_scale(A)
         self.qscale = sr.barrier_scale(A)
         self.N = len(A.Ninteract)
@@ -157,6 +198,9 @@ class Checker:
         a, b = conv([int(i) for i in occsites]), conv([int(i) for i in unoccsites])
         info = lambda: '%s %s occsites=%s unoccsites=%s from occ=%s' % (self.desc, what, list(occsites), list(unoccsites), shadow.tolist())
         before = self.snap(shadow)
+        if self.double and any(new[i] != shadow[i] and i in self.double for i in list(occsites) + list(unoccsites)):
+            mon.count('events:update-double-site' if perform else 'events:trial-double-site')
+            if perform: mon.count('events:trial-double-site')
         dE = None
         with mon.guard('C33:deltaE_trial'):
             E0 = A.E()
@@ -325,7 +369,23 @@ def run_case(case):
     mon.seen('crystals', name)
     mon.note_max('Nsites', S.Nsites)
     mon.note_max('Ninteractions', len(A.interactvalue))
-    chk = Checker(mon, A, B, eref, str(desc), vac)
+    double = ()
+    if case['menu'] == 'thin':
+        ce, _ = S.clusters_values(vac)
+        st = sr.placement_stats(S.supercell(vac), ce)
+        double = st['double_sites']
+        mon.count('thin_supercells')
+        mon.count('thin:' + case['mode'])
+        mon.count('thin:vac', vac is not None)
+        mon.count('thin:jumps', jumps)
+        mon.count('self_wrapping_instances', st['self_wrapping'])
+        mon.count('vacancy_image_in_range', st['vacancy_image'])
+        mon.count('thin:cells-with-self-wrapping', st['self_wrapping'] > 0)
+        mon.count('thin:cells-with-vacancy-image', st['vacancy_image'] > 0)
+        mon.note_max('thin:Nsites', S.Nsites)
+        mon.seen('thin:cells', '%s %s' % (name, S.superlatt.tolist()))
+        desc['thin'] = {k: v for k, v in st.items() if k != 'double_sites'}
+    chk = Checker(mon, A, B, eref, str(desc), vac, double)
     if case['mode'] == 'exhaustive':
         exhaustive(mon, chk, S, vac, rng)
     else:
